@@ -274,7 +274,7 @@ func runC11(r *rt.Runner) {
 	// than returning normally does (the limit is found by running, not pinned)
 	r.Case("near-the-nesting-limit", func(c *rt.C) {
 		prog := func(leaf string, n int, tail string) string {
-			return fmt.Sprintf("{ /r { dup 0 gt { 1 sub r } { pop %s } ifelse } def %d r %s } loop 7", leaf, n, tail)
+			return fmt.Sprintf("{ /r { dup 0 eq { pop %s } { 1 sub r } ifelse } def %d r %s } loop 7", leaf, n, tail)
 		}
 		deepest := func(leaf, tail string, ok func(intp *postscript.Interpreter, err error) bool) int {
 			best := 0
